@@ -251,6 +251,86 @@ func runC41(p *core.Prog, r *core.Report) {
 		}
 	}
 	r2.OKTrivial("scan", "-", fmt.Sprintf("%d panic/assertion sites examined", np))
+	// ---------------- R4 / R5 the combined-file fast path (fstree/head.go)
+	const fstP = "pkg/local_object_storage/blobstor/fstree."
+	rh := p.Func("(*" + fstP + "FSTree).readHeader")
+	pp := p.Func(fstP + "parseCombinedPrefix")
+	if rh == nil || pp == nil {
+		r.Fatalf("C41.R4: readHeader / parseCombinedPrefix not found")
+		return
+	}
+	r4 := r.Rule("C41.R4", "readHeader hands back a non-nil stream with every error: its callers close the stream they got on the error path", 3)
+	closesOnErr := 0
+	for _, fn := range p.FuncsIn("pkg/local_object_storage/blobstor/fstree") {
+		for _, cs := range core.CallSites([]*ssa.Function{fn}, func(s core.Site) bool { return core.StaticCallee(s.Call) == rh }) {
+			v := cs.Call.Value()
+			if v == nil || v.Referrers() == nil {
+				continue
+			}
+			for _, ref := range *v.Referrers() {
+				ex, ok := ref.(*ssa.Extract)
+				if !ok || ex.Index != 1 || ex.Referrers() == nil {
+					continue
+				}
+				for _, u := range *ex.Referrers() {
+					if c, isC := u.(ssa.CallInstruction); isC && c.Common().IsInvoke() && c.Common().Method.Name() == "Close" {
+						closesOnErr++
+					}
+				}
+			}
+		}
+	}
+	for _, b := range rh.Blocks {
+		ret, ok := b.Instrs[len(b.Instrs)-1].(*ssa.Return)
+		if !ok || len(ret.Results) != 3 {
+			continue
+		}
+		if c, isC := ret.Results[2].(*ssa.Const); isC && c.IsNil() {
+			continue // success
+		}
+		c, isNil := ret.Results[1].(*ssa.Const)
+		r4.Check(closesOnErr == 0 || !(isNil && c.IsNil()), core.FuncName(rh)+"#error-return!stream-not-nil", p.InstrPos(ret), "a stream is returned with the error", "readHeader returns a nil stream with an error, and its callers call Close() on the returned stream when they see an error: a malformed file makes the fast path panic instead of failing")
+	}
+	r5 := r.Rule("C41.R5", "the combined-file scanner refills its window unless at least as many bytes as the prefix parser demands are buffered", 1)
+	// what the prefix parser demands: the constant of its own len(p) < C test
+	var need int64 = -1
+	for _, b := range pp.Blocks {
+		for _, in := range b.Instrs {
+			bo, ok := in.(*ssa.BinOp)
+			if !ok || bo.Op.String() != "<" {
+				continue
+			}
+			if c, isC := bo.X.(*ssa.Call); isC && core.CalleeName(c) == "builtin.len" {
+				if k, isK := intConstOf(bo.Y); isK {
+					need = k
+				}
+			}
+		}
+	}
+	if need < 0 {
+		r.Fatalf("C41.R5: parseCombinedPrefix no longer tests len(p) against a constant")
+		return
+	}
+	nThr := 0
+	for _, b := range rh.Blocks {
+		for _, in := range b.Instrs {
+			bo, ok := in.(*ssa.BinOp)
+			if !ok || bo.Op.String() != "<" {
+				continue
+			}
+			sub, isSub := bo.X.(*ssa.BinOp)
+			k, isK := intConstOf(bo.Y)
+			if !isSub || sub.Op.String() != "-" || !isK {
+				continue
+			}
+			nThr++
+			r5.Check(k >= need, core.FuncName(rh)+"#refill-threshold", p.InstrPos(in), fmt.Sprintf("refills unless %d bytes are buffered; the prefix parser reads %d", k, need),
+				fmt.Sprintf("the scanner goes on without a refill when only %d bytes of the next entry prefix are buffered, but parseCombinedPrefix reads %d: the entry length is taken from bytes beyond the data read (stale or zero) — wrong or truncated objects, or a panic, for entries whose prefix straddles the window end", k, need))
+		}
+	}
+	if nThr == 0 {
+		r.Fatalf("C41.R5: no `buffered < constant` refill test found in readHeader")
+	}
 }
 
 // nextIsReturnOnly: every referrer of the loaded value is a Return (the value is only passed back).
